@@ -20,7 +20,8 @@ def convert_vcf_records_to_model(recs: List[vcf.model._Record]) -> Dict[str, Lis
     Default parser for VCF files. Converts VCF records into `VariantIntervalModel`.
     """
     variants = {}
-    for seq_id, seq_variants in itertools.groupby(recs, key=lambda v: v.CHROM):
+    # groupby only groups adjacent records: sort (stably) by chromosome first
+    for seq_id, seq_variants in itertools.groupby(sorted(recs, key=lambda v: v.CHROM), key=lambda v: v.CHROM):
         these_variants = []
         for seq_variant in seq_variants:
             if len(seq_variant.samples) > 1:
